@@ -872,3 +872,85 @@ MT = register(Stream(
           "concurrently; every result must equal the result of the same call made alone beforehand in the same process; "
           "harness oracle only; evaluations = operations, each covering m x rounds calls; non-trivial = every case"),
     nontrivial=None, use_model=False))
+
+
+# --------------------------------------------------------------------------------------------
+# sysfs: process start-up under substituted /sys/devices/system/cpu trees (hook H2)
+# --------------------------------------------------------------------------------------------
+def _write_tree(root, online, cpus):
+    """cpus: {cpuId: [ {level,type,size,list,map} per cache index ]}; a value None = file absent"""
+    import shutil
+    shutil.rmtree(root, ignore_errors=True)
+    base = os.path.join(root, "sys", "devices", "system", "cpu")
+    os.makedirs(base, exist_ok=True)
+    if online is not None:
+        with open(os.path.join(base, "online"), "w") as f:
+            f.write(online)
+    for cid, idxs in cpus.items():
+        for i, c in enumerate(idxs):
+            d = os.path.join(base, f"cpu{cid}", "cache", f"index{i}")
+            os.makedirs(d, exist_ok=True)
+            for k, fn in [("level", "level"), ("type", "type"), ("size", "size"), ("list", "shared_cpu_list"), ("map", "shared_cpu_map")]:
+                if c.get(k) is not None:
+                    with open(os.path.join(d, fn), "w") as f:
+                        f.write(c[k])
+
+def gen_sysfs(tier, r):
+    q = tier == "quick"
+    ops = []
+    top = os.path.join(WORK, "sysfs", str(seed()))
+    count = [0]
+    def add(label, online, cpus):
+        d = os.path.join(top, f"t{count[0]}")
+        count[0] += 1
+        _write_tree(d, online, cpus)
+        ops.append((label, f"sysfs {d}"))
+    def core(l1="32K", l2="1024K", l3="16384K", s1="0-1", s2="0-1", s3="0-15", t1="Data"):
+        return [{"level": "1", "type": t1, "size": l1, "list": s1, "map": None},
+                {"level": "1", "type": "Instruction", "size": "32K", "list": s1, "map": None},
+                {"level": "2", "type": "Unified", "size": l2, "list": s2, "map": None},
+                {"level": "3", "type": "Unified", "size": l3, "list": s3, "map": None}]
+    # realistic machines
+    add("realistic", "0-15\n", {0: core(), 15: core(), 8: core()})
+    add("realistic", "0-7\n", {0: core("48K", "1280K", "24576K", "0-1", "0-1", "0-7"), 7: core("48K", "1280K", "24576K"), 4: core("48K", "1280K", "24576K")})
+    add("realistic", "0\n", {0: core("64K", "512K", "4096K", "0", "0", "0")})
+    # hybrid: performance and efficiency cores with different L1 sizes
+    add("hybrid", "0-13\n", {0: core("48K", "2048K", "24M", "0-1", "0-1", "0-13"), 13: core("32K", "4096K", "24M", "13", "10-13", "0-13"), 7: core("48K", "2048K", "24M")})
+    add("hybrid", "0-5\n", {0: core("64K"), 5: core("32K"), 3: core("128K")})
+    # missing pieces
+    add("missing", None, {})
+    add("missing", "0-3\n", {})
+    add("missing", "0-3\n", {0: [{"level": "1", "type": "Data", "size": "32K", "list": None, "map": None}]})
+    add("missing", "0-3\n", {0: [{"level": "1", "type": "Data", "size": None, "list": "0", "map": None}]})
+    add("missing", "0-3\n", {0: core(s2=None, s3="0-3")[:]})
+    add("missing", "0-3\n", {0: [dict(c, list=None, map="f") for c in core()]})
+    add("missing", "0-1\n", {0: [{"level": "2", "type": "Unified", "size": "512K", "list": "0-1", "map": None}]})
+    # zero / tiny / huge / garbage values
+    garbage_sizes = ["0", "0K", "1", "1K", "3K", "4K", "16383", "1048576K", "1G", "4G", "99999999G", "18446744073709551615", "18446744073709551616K",
+                     "99999999999999999999999", "-1", "-32K", "32Q", "K", "abc", "", " ", "\n", "32 K", "0x8000", "3.5M", "32k", "1e6"]
+    for g in (r.sample(garbage_sizes, 10) if q else garbage_sizes):
+        which = r.choice(["l1", "l2", "l3"])
+        add("garbage-size", "0-3\n", {0: core(**{which: g})})
+    garbage_lists = ["0", "0-0", "0-1023", "3-0", "5-2", "0-18446744073709551615", "0,2,4", "0-1,4-5,9", "-", "-5", "1-", ",", ",,", "a-b", "0-99999999999999999999", ""]
+    for g in (r.sample(garbage_lists, 8) if q else garbage_lists):
+        add("garbage-sharing", "0-3\n", {0: core(**{r.choice(["s2", "s3"]): g})})
+        add("garbage-online", g + "\n", {0: core()})
+    for m in ["ff", "ffffffff,ffffffff", "00000000,00000001", "zz", "0", ",", "f" * 300, ""]:
+        add("sharing-map", "0-3\n", {0: [dict(c, list=None, map=m) for c in core()]})
+    for lv in ["0", "4", "99", "18446744073709551615", "x", "-1", ""]:
+        cs = core()
+        cs[0]["level"] = lv
+        add("garbage-level", "0-3\n", {0: cs})
+    for ty in ["Unified", "data", "Instruction", "", "Data "]:
+        add("cache-type", "0-3\n", {0: core(t1=ty)})
+    return ops
+
+SYSFS = register(Stream(
+    "sysfs", gen_sysfs,
+    rule=("cases = one process start-up per substituted /sys/devices/system/cpu tree (hook H2): realistic machines, hybrid cores "
+          "with different L1 sizes, missing files and directories, zero / tiny / huge / non-numeric cache sizes (all unit suffixes, "
+          "overflowing numbers), malformed online / shared_cpu_list ranges (reversed, open, overflowing), shared_cpu_map variants, "
+          "garbage cache levels and types; the harness checks that the library initialises (exit status 0, no sanitizer report), that "
+          "get_sieve_size() is in [16, 8192] and that count_primes / count_twins / iterator results are right; the Lean model must "
+          "predict get_sieve_size() and Erat's L1 size from the cache description the process parsed; distinct by the tree"),
+    nontrivial=None, model_stream="cfg"))
